@@ -74,6 +74,15 @@ def rule_typestate(ctx: Ctx) -> None:
         txt = ast.unparse(guard) if guard is not None else ""
         ctx.check("order.auto_repay" in txt and "order.amount_filled" in txt and " and " in txt, "C11.1",
                   "auto-repay runs only for an auto_repay order that traded", oc, c, txt, f"auto-repay guard is '{txt}'")
+    g_oc = ctx.cfg(oc)
+    rel = [c for c in A.func_calls(oc) if (A.call_name(c) or "") == "self._update_balances"]
+    for c in [c for c in A.func_calls(oc) if (A.call_name(c) or "") == "self._repay_loans"]:
+        rn_ = [n for r in rel for n in g_oc.nodes_for(r)]
+        p = g_oc.path_avoiding(g_oc.entry, lambda n: n is g_oc.nodes_for(c)[0], lambda n: n in rn_) if rn_ else [g_oc.entry]
+        ctx.check(p is None, "C11.4", "the closed order's funds on hold are released before its loans are repaid", oc, c,
+                  "release dominates _repay_loans", "auto-repay runs while the closed order's leftover hold is still in place: a loan the "
+                  "freed funds would cover is refused by the hold <= balance rule and silently stays open ('as far as funds allow' fails)",
+                  detail={"path": C.fmt_path(p) if p else []})
     # cancel_loan states the loan was created in this very step
     cn = ctx.func(f"{LM}.cancel_loan")
     ctx.check(any(isinstance(x, ast.Assert) and "created_at" in ast.unparse(x.test) and "now()" in ast.unparse(x.test)
